@@ -139,6 +139,15 @@ Proof.
 Qed.
 Print Assumptions C03_search_filter_only_is_first_page.
 
+(* Errors: a filter naming only existing indexes (or _id) whose keys all convert is evaluated without
+   error under every candidate set, direction, hash order and leaf form; so an evaluation error of an
+   in-budget filter always comes from an unknown index or an unconvertible key in the tree. *)
+Theorem C03_well_formed_filters_evaluate_without_error :
+  forall hs (lb : bool) c (f : flt), filter_ok c f = true ->
+  forall cand desc, eval_err hs lb c f cand desc = None.
+Proof. exact eval_err_ok. Qed.
+Print Assumptions C03_well_formed_filters_evaluate_without_error.
+
 (* ------------------------------------------------------------------ the code as it is now *)
 (* generated facts (gen/Gen_Limits.v is re-extracted from the source on every run) *)
 Theorem C03_gen_limits_coherent :
